@@ -255,9 +255,28 @@ pub mod watchdog {
         }
     }
 
+    extern "C" {
+        fn signal(signum: i32, handler: usize) -> usize;
+        fn _exit(code: i32) -> !;
+    }
+    /// the implementation aborted the process (failed allocation, stack overflow, abort()): print the history whose
+    /// next call did it, the way the watchdog does for a call that does not return, and leave with a status of our own
+    extern "C" fn on_abort(sig: i32) {
+        eprintln!("harness: the process was aborted by signal {} inside the call that follows this history", sig);
+        if let Ok(c) = CASE.try_lock() {
+            for l in c.iter() {
+                eprintln!("CRASHCASE {}", l);
+            }
+        }
+        unsafe { _exit(5) }
+    }
+
     pub fn start() {
         if STARTED.swap(true, Ordering::SeqCst) {
             return;
+        }
+        unsafe {
+            signal(6, on_abort as usize); // SIGABRT
         }
         std::thread::spawn(|| {
             let mut last = BEAT.load(Ordering::Relaxed);
